@@ -30,7 +30,7 @@ VARIANTS += [
 VARIANTS += [
     # reverting fix 9160fd4
     fire("c08-discover-guard-repeats-only",
-         [(WK8, "        if had_started and (reps != 1) and (len(self.subcircuits) != count):", "        if had_started and (reps > 1) and (len(self.subcircuits) != count):")],
+         [(WK8, "        if had_started and (reps != 1) and (open_at_entry.end is not None):", "        if had_started and (reps > 1) and (open_at_entry.end is not None):")],
          ("C08.6", "DiscoverSubcircuits.visit_BlockStatement:repetition-test"), ("C08",)),
     fire("c08-discover-open-trace-accepted",
          [(WK8, "            and (self.current is not open_at_entry)\n", "            and False\n")],
